@@ -231,6 +231,15 @@ def check_generate(case, ctx):
     ctx.check(list(again) == keep, "generate-depends-on-earlier-result",
               "generate(%d, %d, clamped=%r) called again after the caller edited the first result returns %r, first time %r" % (p, n, clamped, again, keep))
     kv = keep
+    if clamped:
+        # the usual way to call it: positional arguments only (clamped is the default); again every call makes its own vector
+        pos = knotvector.generate(p, n)
+        ctx.check(list(pos) == keep, "generate-positional", "generate(%d, %d) returns %r, generate(%d, %d, clamped=True) %r" % (p, n, pos, p, n, keep))
+        pos.insert(len(pos) // 2, pos[len(pos) // 2])
+        pos[0] = -1.0
+        pos2 = knotvector.generate(p, n)
+        ctx.check(list(pos2) == keep and pos2 is not pos, "generate-depends-on-earlier-result",
+                  "generate(%d, %d) called again after the caller edited the first result returns %r, first time %r" % (p, n, pos2, keep))
     # the documented names in geomdl.utilities give the same vector, keyword included
     via = utilities.generate_knot_vector(p, n, clamped=clamped)
     ctx.check(list(via) == keep, "generate-utilities-name",
